@@ -331,6 +331,18 @@ DJV_CMD(create, "create")
     if (disk)
     {
         S.dir = new_dir();
+        // `create <schema> disk over <other 1.x schema>`: the directory still holds the p.db of a library of another
+        // 1.x version whose m.db is gone (a library that was reset, a player downgrade); creating must not adopt
+        // anything from it
+        if (a.size() >= 5 && a.at(3) == "over")
+        {
+            {
+                auto old = e::create_database(S.dir, schema_of(a.at(4)));
+            }
+            g_wrap.handles.clear();
+            std::error_code ec;
+            std::filesystem::remove(std::filesystem::path(S.dir) / "m.db", ec);
+        }
         S.db = e::create_database(S.dir, sch);
     }
     else
